@@ -72,4 +72,35 @@ theorem runMid_preload_first_checks {α : Type} (k : Fmt) (hk : scanChecksCtx k 
   cases k <;> simp [scanChecksCtx] at hk <;> cases notices <;>
     simp [runMid, midScanOf, preloadMid, loadAmmoMid, scanChecksCtx, scanStream, scanLoop, Dec.init]
 
+/-- the preloaded path of a decoder that never looks at the context (http/json): the whole file is loaded, `runPreloaded`
+sees the cancellation (or that nothing is chosen) before it delivers anything -/
+theorem runMid_preload_first_json {α : Type} (k : Fmt) (hk : scanChecksCtx k = false) (a : α) (rest : List α)
+    (chosen : α → Bool) (b : Bounds) (ret : CtxRet) (norm notices sendWins : Bool) (fuel : Nat)
+    (hfuel : rest.length + 2 ≤ fuel) :
+    runMid k true (a :: rest) chosen b ret norm ⟨0, notices, sendWins⟩ (fuel + 1) =
+      some ([], ⟨if ((a :: rest).filter chosen).length = 0 then .errNoAmmo else .canceled, true⟩) := by
+  obtain ⟨f, rfl⟩ : ∃ f, fuel = f + 1 := ⟨fuel - 1, by omega⟩
+  have hn : 0 < (a :: rest).length := by simp
+  cases k <;> simp [scanChecksCtx] at hk
+  · -- jsonLines
+    have src := src_topCheck (a :: rest).length 1 hn
+    obtain ⟨s', hs, hR⟩ := src.next 0 0 Dec.init (RStream_init _) hn (by omega)
+    have hl := loadAmmo_spec (fun b => scanStream .topCheck b (a :: rest).length) (RStream (a :: rest).length) (a :: rest) src
+      (f + 1) 1 s' hR (by simp) (by simp; omega)
+    simp only [List.take_succ_cons, List.take_zero] at hl
+    simp only [runMid, midScanOf, preloadMid, loadAmmoMid, scanChecksCtx, Bool.false_and, hs]
+    simp only [List.getElem?_cons_zero, List.nil_append, hl, Bool.false_eq_true, if_false]
+    rw [runPreloaded_cancelled]
+    by_cases hc : (List.filter chosen (a :: rest)).length = 0 <;> simp [hc, mapSentinel]
+  · -- jsonArray
+    have src := src_arr (a :: rest).length 1 hn
+    obtain ⟨s', hs, hR⟩ := src.next 0 0 ArrDec.init (RArr_init _ hn) hn (by omega)
+    have hl := loadAmmo_spec (fun b => scanArr b (a :: rest).length) (RArr (a :: rest).length) (a :: rest) src
+      (f + 1) 1 s' hR (by simp) (by simp; omega)
+    simp only [List.take_succ_cons, List.take_zero] at hl
+    simp only [runMid, midScanOf, preloadMid, loadAmmoMid, scanChecksCtx, Bool.false_and, hs]
+    simp only [List.getElem?_cons_zero, List.nil_append, hl, Bool.false_eq_true, if_false]
+    rw [runPreloaded_cancelled]
+    by_cases hc : (List.filter chosen (a :: rest)).length = 0 <;> simp [hc, mapSentinel]
+
 end Pandora.Proofs.C14
